@@ -22,6 +22,36 @@ type c07Replay struct {
 	RelNbf *int64 `json:"rel_nbf,omitempty"`
 	// Dirty > 0: the claim also carries the Dirty-th unrelated validation problem of its kind (early returns!)
 	Dirty int `json:"dirty,omitempty"`
+	// Extra > 0: the claim also carries the Extra-th piece of valid nested content of its kind (nested validators
+	// that run on the same result list must not disturb the time checks)
+	Extra int `json:"extra,omitempty"`
+}
+
+// extras: valid (non-blocking) nested content per kind
+func extras(kind string) []func(jwt.Claims) {
+	if kind != "account" {
+		return nil
+	}
+	mkImport := func(exp int64, typ jwt.ExportType) func(jwt.Claims) {
+		return func(c jwt.Claims) {
+			a := c.(*jwt.AccountClaims)
+			exporter := kpN('A', 3)
+			act := jwt.NewActivationClaims(a.Subject)
+			act.ImportSubject, act.ImportType, act.Expires = "orders.>", typ, exp
+			tok, err := act.Encode(exporter)
+			must(err)
+			a.Imports.Add(&jwt.Import{Name: "i", Subject: "orders.eu", Account: pubOf(exporter), Token: tok, Type: typ})
+		}
+	}
+	return []func(jwt.Claims){
+		mkImport(0, jwt.Stream),  // embedded activation without expiry
+		mkImport(5, jwt.Service), // embedded activation long expired: deliberately ignored by import validation
+		func(c jwt.Claims) {
+			a := c.(*jwt.AccountClaims)
+			a.Exports.Add(&jwt.Export{Name: "e", Subject: "pub.>", Type: jwt.Stream})
+			a.Imports.Add(&jwt.Import{Name: "j", Subject: "x.y", Account: pubOf(kpN('A', 4)), Type: jwt.Stream})
+		},
+	}
 }
 
 // dirt: unrelated validation problems per kind; the time checks must not depend on them
@@ -137,6 +167,13 @@ func evalC07(c *Ctx, rp c07Replay) {
 		}
 		ds[rp.Dirty-1](cl)
 	}
+	if rp.Extra > 0 {
+		es := extras(rp.Kind)
+		if rp.Extra > len(es) {
+			return
+		}
+		es[rp.Extra-1](cl)
+	}
 	cl.Claims().Expires = exp
 	cl.Claims().NotBefore = nbf
 	r := validateOp(c, cl, true)
@@ -171,7 +208,7 @@ func evalC07(c *Ctx, rp c07Replay) {
 }
 
 func runC07(c *Ctx) {
-	c.Res.Rule = "all seven claim kinds x (expiry, not-before) pairs from {int64 min, -1, 0, 1, now-10^6, now-3, now+3, now+10^6, int64 max, ...} (13 x 13 grid) plus random int64 pairs, always outside a 2-second band around the clock; observable: number of time-check issues, IsBlocking(true), IsBlocking(false) on an otherwise clean claim, and on claims that also carry one unrelated validation problem of their kind (26 kinds of dirt: validators with early returns must still reach the time checks); oracle = the property's sentence; every case also through the Lean model. non-trivial = distinct (kind, exp, nbf)."
+	c.Res.Rule = "all seven claim kinds x (expiry, not-before) pairs from {int64 min, -1, 0, 1, now-10^6, now-3, now+3, now+10^6, int64 max, ...} (13 x 13 grid) plus random int64 pairs, always outside a 2-second band around the clock; observable: number of time-check issues, IsBlocking(true), IsBlocking(false) on an otherwise clean claim, and on claims that also carry one unrelated validation problem of their kind (26 kinds of dirt: validators with early returns must still reach the time checks), and on accounts that carry valid nested content (imports with embedded activation tokens, unexpired and expired; exports) validated into the same result list; oracle = the property's sentence; every case also through the Lean model. non-trivial = distinct (kind, exp, nbf)."
 	rel := func(d int64) *int64 { return &d }
 	type ev struct {
 		abs int64
@@ -193,6 +230,17 @@ func runC07(c *Ctx) {
 			for _, e := range sub {
 				for _, n := range sub {
 					evalC07(c, c07Replay{Kind: k, Exp: e.abs, Nbf: n.abs, RelExp: e.rel, RelNbf: n.rel, Dirty: d})
+				}
+			}
+		}
+	}
+	// ... and on claims that carry valid nested content validated into the same result list
+	for _, k := range allKinds {
+		for x := 1; x <= len(extras(k)); x++ {
+			for _, e := range sub {
+				for _, n := range sub {
+					evalC07(c, c07Replay{Kind: k, Exp: e.abs, Nbf: n.abs, RelExp: e.rel, RelNbf: n.rel, Extra: x})
+					evalC07(c, c07Replay{Kind: k, Exp: e.abs, Nbf: n.abs, RelExp: e.rel, RelNbf: n.rel, Extra: x, Dirty: 1 + x%2})
 				}
 			}
 		}
